@@ -327,6 +327,10 @@ impl<'tx> TxInner<'tx> {
                     file.write_all(buf)?;
                 }
             }
+            // The data pages must be durable before the meta page that points at them is
+            // written, otherwise a power loss can leave a valid meta page without its data.
+            file.flush()?;
+            file.sync_all()?;
             vpoint!("commit:data_written", n = freelist.pages.len());
         }
         if self.db.inner.flags.strict_mode {
